@@ -105,6 +105,8 @@ def build_spec(sc, shard_no, slot, index, rng, port_base=12000):
     hosts = [{"id": f"{hid}{h}", "workers": nw, "port": cport + 1 + h * 10} for h in range(nh)]
     tmp = tempfile.mkdtemp(prefix=f"v05-{hid}-")
     spec = {"tmp": tmp, "job": js, "hosts": hosts, "cport": cport, "faults": faults, "sleeps": sleeps, "watchdog_s": 100, "port_block": block}
+    if sc.get("slow_before_shutdown_s"):
+        spec["slow_before_shutdown_s"] = sc["slow_before_shutdown_s"]
     if kill:
         spec["kill"] = kill
     return spec, sc
@@ -258,6 +260,8 @@ def run_shard(spec, col: Collector):
         second = {"kind": "kill", "what": what, "signal": sig, "at": at, "shape": shape, "host": (shape[0] - 1) if k % 2 else 0}
         if shard_no < 4:
             third = {"kind": "none", "shape": SHAPES[shard_no]}
+            if shard_no % 2 == 0:
+                third["slow_before_shutdown_s"] = 6      # normal completion with a controller that is slow to shut the cluster down
         else:
             h2, w2 = pairs[(k * 7 + 5) % len(pairs)]
             third = {"kind": "task", "how": h2, "when": w2, "role": "middle" if w2 == "mid" else ROLES[k % 4], "shape": SHAPES[(k + 1) % 4]}
